@@ -37,15 +37,16 @@ type ccStep struct {
 }
 
 type ccEpisode struct {
-	Setup string   `json:"setup"`
-	Reqs  []ccReq  `json:"reqs"`
-	Sched []ccStep `json:"sched"`
-	Adv   bool     `json:"adv,omitempty"`   // the schedule comes from the model without the referrer mutex: the real requests will wait where it interleaves critical sections
-	GCOn  bool     `json:"gcon,omitempty"`  // the server collects untagged manifests and unreferenced blobs, no grace period (episodes with a collection)
-	Burst int      `json:"burst,omitempty"` // replay: run only ungated bursts, this many
-	Cold  bool     `json:"cold,omitempty"`  // replay: restart the server between setup and burst
-	Order []int    `json:"order,omitempty"` // replay: the order of requests (0 based) a recorded run let one store call through
-	Integ bool     `json:"integ,omitempty"` // requests on one upload session: judged by integrity only (C01: whatever is served hashes to its digest)
+	Setup    string   `json:"setup"`
+	Reqs     []ccReq  `json:"reqs"`
+	Sched    []ccStep `json:"sched"`
+	Adv      bool     `json:"adv,omitempty"`      // the schedule comes from the model without the referrer mutex: the real requests will wait where it interleaves critical sections
+	GCOn     bool     `json:"gcon,omitempty"`     // the server collects untagged manifests and unreferenced blobs, no grace period (episodes with a collection)
+	Burst    int      `json:"burst,omitempty"`    // replay: run only ungated bursts, this many
+	Cold     bool     `json:"cold,omitempty"`     // replay: restart the server between setup and burst
+	Order    []int    `json:"order,omitempty"`    // replay: the order of requests (0 based) a recorded run let one store call through
+	Together bool     `json:"together,omitempty"` // every other random schedule releases two pending store calls at the same moment (races inside store calls)
+	Integ    bool     `json:"integ,omitempty"`    // requests on one upload session: judged by integrity only (C01: whatever is served hashes to its digest)
 }
 
 const ccRepo = "conc/repo"
@@ -245,6 +246,13 @@ func ccSetupOps(setup string) []Op {
 		ops = append(ops, put("a1", "none"), put("a2", "none"))
 	case "s3":
 		ops = append(ops, put("a1", "none"), put("m2", "t2"))
+	case "s5":
+		// m2 under the first two of many tags, m1 under all the others: a delete of m2 by digest removes entries from the
+		// front of a long list (the last entries are moved into their place) while the list is read
+		ops = append(ops, put("m2", "t1"), put("m2", "t2"))
+		for t := 3; t <= 24; t++ {
+			ops = append(ops, put("m1", fmt.Sprintf("t%d", t)))
+		}
 	case "s4":
 		ops = append(ops, Op{Op: "UpPost", Repo: "r1"}, Op{Op: "UpPatch", Repo: "r1", Sess: "s1", Cr: "ok", St: "ok", Chunk: Chunk{C: "b4", P: "all"}})
 	}
@@ -305,7 +313,7 @@ func cmdConc(args []string) {
 	w := bufio.NewWriterSize(of, 1<<20)
 	defer func() { w.Flush(); of.Close() }()
 	enc := json.NewEncoder(w)
-	cat, err := BuildCatalogue(CatOpts{Seed: *seed, Contents: []string{"m1", "m2", "a1", "a2", "b3", "b4"}, Algs: []string{"sha256", "sha512"}, Repos: []string{ccRepo}, NTags: 2})
+	cat, err := BuildCatalogue(CatOpts{Seed: *seed, Contents: []string{"m1", "m2", "a1", "a2", "b3", "b4"}, Algs: []string{"sha256", "sha512"}, Repos: []string{ccRepo}, NTags: 24})
 	if err != nil {
 		fatal(err)
 	}
@@ -338,7 +346,7 @@ func cmdConc(args []string) {
 				isBurst := variant > *free
 				cold := isBurst && store == "dir" && !ep.Integ && ((ep.Burst > 0 && ep.Cold) || (ep.Burst == 0 && (variant-*free)%3 != 0)) // (sessions do not survive a restart)
 				// session episodes: every other random schedule releases two pending store calls at the same moment
-				together := ep.Integ && !isBurst && variant%2 == 1 && len(ep.Order) == 0
+				together := (ep.Integ || ep.Together) && !isBurst && variant%2 == 1 && len(ep.Order) == 0
 				id := fmt.Sprintf("e%d-%s-%d", neps, store, variant)
 				root := ""
 				if store != "mem" {
